@@ -1,13 +1,15 @@
 #!/venv/bin/python
 """Copy sub-agent outputs /tmp/mut/<ID>-out/{patchN.diff,demoN.py,metaN.json} to /verif/seeded/<ID>-N/."""
 import json, os, shutil, sys
-for pid in sys.argv[1:]:
-    src = f"/tmp/mut/{pid}-out"
+args = [a for a in sys.argv[1:] if not a.startswith("--")]
+ROUND2 = "--round2" in sys.argv
+for pid in args:
+    src = f"/tmp/mut/{pid}-out2" if ROUND2 else f"/tmp/mut/{pid}-out"
     for n in (1, 2, 3, 4):
         p = os.path.join(src, f"patch{n}.diff")
         if not os.path.exists(p):
             continue
-        dst = f"/verif/seeded/{pid}-{n}"
+        dst = f"/verif/seeded/{pid}-r2-{n}" if ROUND2 else f"/verif/seeded/{pid}-{n}"
         os.makedirs(dst, exist_ok=True)
         shutil.copy(p, os.path.join(dst, "patch.diff"))
         shutil.copy(os.path.join(src, f"demo{n}.py"), os.path.join(dst, "demo.py"))
@@ -16,6 +18,7 @@ for pid in sys.argv[1:]:
                 shutil.copy(os.path.join(src, extra), os.path.join(dst, extra))
         meta = json.load(open(os.path.join(src, f"meta{n}.json")))
         meta["property"] = pid
-        meta["origin"] = "fresh sub-agent given only the property text and a scratch worktree"
+        meta["origin"] = ("second-round sub-agent (brief: seeded/BRIEF2.md: size thresholds, hidden state, rare dtypes, argument combinations, names)" if ROUND2
+                          else "fresh sub-agent given only the property text and a scratch worktree")
         json.dump(meta, open(os.path.join(dst, "meta.json"), "w"), indent=1)
         print("collected", dst)
